@@ -108,7 +108,8 @@ func (c *Ctx) flatten(v value, t types.Type, out *[]*Term, depth int) {
 		*out = append(*out, CI(int64(v*1e6)))
 	case []value:
 		if v == nil {
-			*out = append(*out, CI(-1))
+			// proto3 does not distinguish a nil from an empty bytes/repeated field
+			*out = append(*out, CI(0))
 			return
 		}
 		*out = append(*out, CI(int64(len(v))))
@@ -276,6 +277,8 @@ func init() {
 		var flat []*Term
 		c.flatten(m.v, m.t, &flat, 0)
 		name := "proto_" + nameSan.ReplaceAllString(namedPath(derefOrSelf(m.t)), "_")
+		// the wire encoding of a message is a deterministic injective function of its field values
+		c.injective[name] = true
 		id := c.applyUF(name, flat, 32, 255)
 		c.protoTab = append(c.protoTab, protoRec{id: id, msg: deepCopy(m.v, 0), t: m.t})
 		return tuple{termsSlice(id), iface{}}
